@@ -236,6 +236,35 @@ def directed(ctx):
                 s = s + fill(1, 4)
             reads.append((f"r{i}", s, "I" * len(s)))
         cases.append(dict(argv=argv, paired=False, reads1=reads, reads2=None, with_qual=True, interleaved_in=False))
+    # three or four rounds over adapters of both kinds: a 3' adapter is removed first (it scores highest), then a 5' adapter, and only then does a
+    # further 5' adapter - anchored, non-internal or partial at the new read start - become visible: every round searches *all* adapters again
+    for _ in range(ctx.scale(30, 400)):
+        three = pipe.rs(rng, 18)
+        five1 = pipe.rs(rng, 13)
+        five2 = pipe.rs(rng, rng.randint(8, 10))
+        kind2 = rng.choice(["^", "X", ""])
+        specs = [("-a", three), ("-g", five1), ("-g", kind2 + five2)]
+        if rng.random() < 0.4:
+            specs.append(("-a", pipe.rs(rng, 9)))
+        rng.shuffle(specs)
+        argv = ["--no-index", "--times", str(rng.choice([3, 3, 4]))]
+        for i, (fl, sp) in enumerate(specs):
+            argv += [fl, f"a{i}={sp}"]
+        if rng.random() < 0.25:
+            argv += ["--action", rng.choice(["mask", "none"])]
+        argv += ["-o", "{dir}/o1.fastq"]
+        reads = []
+        for i in range(6):
+            body = pipe.rs(rng, rng.randint(8, 16))
+            k = rng.random()
+            if k < 0.6:
+                s_ = five1 + (five2 if kind2 else five2[rng.randint(1, 3):]) + body + three + pipe.rs(rng, rng.randint(0, 3))
+            elif k < 0.8:
+                s_ = five1 + five2 + body
+            else:
+                s_ = (five2 if rng.random() < 0.5 else "") + body + three
+            reads.append((f"r{i}", s_, "I" * len(s_)))
+        cases.append(dict(argv=argv, paired=False, reads1=reads, reads2=None, with_qual=True, interleaved_in=False))
     # default mode (no --no-index) with one anchored 5' and one anchored 3' adapter, optionally one more adapter of another type: nothing is
     # indexed, so the order given decides ties; reads carry both adapters exactly (equal score, no errors) or with one mismatch each
     for _ in range(ctx.scale(40, 500)):
